@@ -328,6 +328,18 @@ func (e *emitter) structSupport(d *def) {
 func (e *emitter) structTest(d *def) {
 	n := d.Name
 	e.f("func c05Struct%s(c *rt.Ctx, r *rt.Rand, iters int) {", n)
+	// the Go struct has the declared fields in the declared order, tagged with the schema names
+	e.f("c.Mode = \"struct-mismatch\"")
+	e.f("{")
+	e.f("t := reflect.TypeOf(%s{})", n)
+	e.f("c.EqInt(%q, t.NumField(), %d)", n+".fields", len(d.Fields))
+	e.f("if t.NumField() == %d {", len(d.Fields))
+	for i, f := range d.Fields {
+		e.f("c.EqStr(%q, t.Field(%d).Name, %q)", n+"."+f.Name+".goname", i, f.Go)
+		e.f("c.EqStr(%q, t.Field(%d).Tag.Get(\"json\"), %q)", n+"."+f.Name+".json", i, f.Name)
+	}
+	e.f("}")
+	e.f("}")
 	e.f("for it := 0; it < iters; it++ {")
 	e.f("p := fmt.Sprintf(\"%s#%%d\", it)", n)
 	e.f("v := C05Gen%s(r)", n)
@@ -739,6 +751,7 @@ func (e *emitter) header() {
 	e.f("import (")
 	e.f("\"bytes\"")
 	e.f("\"fmt\"")
+	e.f("\"reflect\"")
 	e.f("")
 	e.f("\"github.com/basecomplextech/baselibrary/bin\"")
 	e.f("\"github.com/basecomplextech/baselibrary/buffer\"")
@@ -760,6 +773,7 @@ func (e *emitter) header() {
 	e.f("var (")
 	e.f("_ = bytes.Equal")
 	e.f("_ = fmt.Sprint")
+	e.f("_ = reflect.TypeOf")
 	e.f("_ bin.Bin64")
 	e.f("_ buffer.Buffer")
 	e.f("_ spec.Type")
